@@ -380,4 +380,7 @@ mod tests {
 // proof harnesses for this module in from the directory named by
 // DATAFUSION_VERIF_DIR so that they can reach private items.
 #[cfg(kani)]
-include!(concat!(env!("DATAFUSION_VERIF_DIR"), "/kani/execution/peak_recording.rs"));
+include!(concat!(
+    env!("DATAFUSION_VERIF_DIR"),
+    "/kani/execution/peak_recording.rs"
+));
